@@ -422,19 +422,31 @@ struct Ctx {
     std::string witnessHead;
     std::map<std::string, std::pair<long, std::string>> fails;   // key -> (count, first description)
     long comparisons = 0;
+    double maxNodeErr[2] = {0, 0};               // kr (absolute), pc (relative to the largest pc of the table)
+    std::map<std::string, double> maxDiff;
     explicit Ctx(vh::Reporter& r) : rep(r) {}
     void fail(const std::string& key, const std::string& what) {
         auto& f = fails[key];
         if (f.first++ == 0) f.second = what;
     }
     void flush() {
+        rep.maxof("max_node_err_kr", maxNodeErr[0]);
+        rep.maxof("max_node_err_pc_rel", maxNodeErr[1]);
+        for (auto& d : maxDiff) rep.maxof(d.first, d.second);
         for (auto& f : fails) {
             std::string what = f.second.second + " (" + std::to_string(f.second.first) + " such mismatches in this case)";
             rep.violation(f.first, what, witnessHead + "\n" + what + "\n");
         }
         fails.clear();
     }
-    // |got - expect| <= tol
+    // |got - expect| <= tol; key and description are only built for a mismatch
+    template <class K, class W>
+    bool closeLazy(K&& key, W&& what, double got, double expect, double tol) {
+        ++comparisons;
+        if (std::fabs(got - expect) <= tol) return true;
+        --comparisons;
+        return close(key(), what(), got, expect, tol);
+    }
     bool close(const std::string& key, const std::string& what, double got, double expect, double tol) {
         ++comparisons;
         double d = std::fabs(got - expect);
@@ -478,11 +490,13 @@ static void checkUnscaledCell(Ctx& cx, const Cell& cell, const Tab& t, int satnu
         // every node of the table
         for (size_t i = 0; i < x.size(); ++i) {
             if (cell.blendZone(route, c, x[i])) continue;
-            std::ostringstream w; w.precision(17);
-            w << tag << " route " << ROUTE[route] << " " << ck << " at table node " << i << " (S=" << x[i] << ")";
             double got = cell.eval(route, c, x[i]);
-            cx.close("node-value:" + ck, w.str(), got, y[i], tol);
-            cx.rep.maxof(isPc(c) ? "max_node_err_pc_rel" : "max_node_err_kr", isPc(c) ? std::fabs(got - y[i]) / std::max(1.0, ymax) : std::fabs(got - y[i]));
+            cx.closeLazy([&] { return "node-value:" + ck; },
+                         [&] { std::ostringstream w; w.precision(17);
+                               w << tag << " route " << ROUTE[route] << " " << ck << " at table node " << i << " (S=" << x[i] << ")"; return w.str(); },
+                         got, y[i], tol);
+            double err = isPc(c) ? std::fabs(got - y[i]) / std::max(1.0, ymax) : std::fabs(got - y[i]);
+            if (err > cx.maxNodeErr[isPc(c)]) cx.maxNodeErr[isPc(c)] = err;
         }
         if (!full) continue;
         // between adjacent nodes: bracketed by the node values and monotone
@@ -543,14 +557,18 @@ static void compareCells(Ctx& cx, const Cell& a, const Cell& b, const std::strin
         const double smax = isGas(c) ? 1.0 - a.swl : 1.0;
         std::vector<double> ss = x;
         for (int q = 0; q <= grid; ++q) ss.push_back(smax * q / grid);
+        double worst = 0;
         for (double s : ss) {
             if (a.blendZone(route, c, s)) continue;
             double va = a.eval(route, c, s), vb = b.eval(route, c, s);
-            std::ostringstream w; w.precision(17);
-            w << tag << " route " << ROUTE[route] << " " << CURVE[c] << " at S=" << s;
-            cx.close(key + ":" + CURVE[c], w.str(), va, vb, tol);
-            cx.rep.maxof("max_diff_" + key.substr(0, key.find(':')), isPc(c) ? std::fabs(va - vb) / std::max(1.0, ymax) : std::fabs(va - vb));
+            cx.closeLazy([&] { return key + ":" + CURVE[c]; },
+                         [&] { std::ostringstream w; w.precision(17);
+                               w << tag << " route " << ROUTE[route] << " " << CURVE[c] << " at S=" << s; return w.str(); },
+                         va, vb, tol);
+            worst = std::max(worst, isPc(c) ? std::fabs(va - vb) / std::max(1.0, ymax) : std::fabs(va - vb));
         }
+        double& md = cx.maxDiff["max_diff_" + key];
+        md = std::max(md, worst);
     }
 }
 
@@ -611,12 +629,12 @@ static void caseUnscaled(vh::Reporter& rep, long idx, Rng& rng, int grid) {
             // the SOF3 rows are nodes of the family II input as well
             for (int route = 0; route < 2; ++route) for (size_t k = 0; k < t.so3.size(); ++k) {
                 double sw = 1.0 - t.so3[k], sg = (1.0 - t.Swl) - t.so3[k];
-                std::ostringstream w; w.precision(17);
-                w << "family II " << cellTag(c, m.satnum[c]) << " route " << ROUTE[route] << " SOF3 row " << k << " (So=" << t.so3[k] << ")";
+                auto what = [&] { std::ostringstream w; w.precision(17);
+                                  w << "family II " << cellTag(c, m.satnum[c]) << " route " << ROUTE[route] << " SOF3 row " << k << " (So=" << t.so3[k] << ")"; return w.str(); };
                 if (c2.supported(route, KROW) && sw >= t.Swl && !c2.blendZone(route, KROW, sw))
-                    cx.close("node-value:krow", w.str() + " krow", c2.eval(route, KROW, sw), t.krow3[k], KR_TOL);
+                    cx.closeLazy([] { return std::string("node-value:krow"); }, [&] { return what() + " krow"; }, c2.eval(route, KROW, sw), t.krow3[k], KR_TOL);
                 if (c2.supported(route, KROG) && sg >= 0.0 && !c2.blendZone(route, KROG, sg))
-                    cx.close("node-value:krog", w.str() + " krog", c2.eval(route, KROG, sg), t.krog3[k], KR_TOL);
+                    cx.closeLazy([] { return std::string("node-value:krog"); }, [&] { return what() + " krog"; }, c2.eval(route, KROG, sg), t.krog3[k], KR_TOL);
             }
             if (first) compareCells(cx, c1, c2, "family-I-vs-II", cellTag(c, m.satnum[c]), t, PUNIT[m.unit], grid);
         }
@@ -897,7 +915,7 @@ struct Trace {
     std::map<double, double> scan;                // observations on the current scanning curve: x -> krn
 };
 
-static void caseHyst(vh::Reporter& rep, long idx, Rng& rng, int steps) {
+static void caseHyst(vh::Reporter& rep, long idx, Rng& rng, int steps, bool allowImbnumAbsent) {
     Model m = baseModel(rng, idx, 2);
     m.family = rng.chance(0.8) ? 1 : 2;
     m.hyst = true;
@@ -909,6 +927,7 @@ static void caseHyst(vh::Reporter& rep, long idx, Rng& rng, int steps) {
     // 3 = IMBNUM keyword absent
     int imbMode = 0;
     if (carlson && rng.chance(0.45)) imbMode = (int)rng.range(1, 3);
+    if (imbMode == 3 && !allowImbnumAbsent) imbMode = 1;
     TabOpts o; o.punit = PUNIT[m.unit]; o.pPlateau = 0.0; o.zeroPc = false;
     for (int r = 0; r < m.ndrain; ++r) m.tabs.push_back(genTab(rng, o));
     if (imbMode == 0) for (int r = 0; r < m.ndrain; ++r) m.tabs.push_back(genImbTab(rng, m.tabs[r], o));
@@ -938,7 +957,9 @@ static void caseHyst(vh::Reporter& rep, long idx, Rng& rng, int steps) {
             rep.cover("history_system", gasSystem ? "gas-oil (Sw = Swco)" : "oil-water (Sg = 0)");
             const int KRN = gasSystem ? KRG : KROW;
             const int nrev = (int)rng.range(1, 5);
-            const double lo = gasSystem ? 0.0 : swl + 1e-3, hi = gasSystem ? 1.0 - swl : 1.0;
+            // inside the tabulated saturation range (beyond it the curves continue constantly, and Carlson's horizontal
+            // shift is not unique on a constant stretch); route 3p blends the oil curves within 1e-5 of Swco
+            const double lo = gasSystem ? 0.0 : swl + 1e-3, hi = gasSystem ? t.Sgu : 1.0;
             History h = genHistory(rng, lo, hi, steps, nrev, gasSystem ? t.sg : t.sw);
             rep.cover("history_reversals", std::to_string(std::min(h.reversals, 6)));
             if (firstHist.empty()) {
@@ -962,13 +983,14 @@ static void caseHyst(vh::Reporter& rep, long idx, Rng& rng, int steps) {
                     if (!ch.supported(route, KRN)) continue;
                     Trace& T = tr[route];
                     const double got = ch.eval(route, KRN, s), drain = cd.eval(route, KRN, s);
-                    std::ostringstream w; w.precision(17);
-                    w << tag << " route " << ROUTE[route] << " step " << k << " S=" << s;
+                    auto where = [&] { std::ostringstream w; w.precision(17);
+                                       w << tag << " route " << ROUTE[route] << " step " << k << " S=" << s; return w.str(); };
                     if (!(x > T.xmin - 1e-12)) {
                         // at or beyond the extreme saturation reached so far: the drainage curve
-                        cx.close("hyst-drainage-until-reversal", w.str() + " non-wetting kr beyond the extreme saturation reached so far (" + num(S(T.xmin)) + ")", got, drain, KR_TOL);
+                        cx.closeLazy([] { return std::string("hyst-drainage-until-reversal"); },
+                                     [&] { return where() + " non-wetting kr beyond the extreme saturation reached so far (" + num(S(T.xmin)) + ")"; }, got, drain, KR_TOL);
                         rep.count("steps_on_drainage_curve");
-                    } else if (x > T.xmin + 1e-12) {
+                    } else if (x > T.xmin + 1e-12 && !identical) {
                         // on the scanning curve that starts at xmin: monotone with every other observation on it and
                         // not above the value at the reversal point
                         ++cx.comparisons;
@@ -976,7 +998,7 @@ static void caseHyst(vh::Reporter& rep, long idx, Rng& rng, int steps) {
                         auto it = T.scan.lower_bound(x);
                         if (it != T.scan.end() && !(it->second <= got + MONO_SLACK)) bad = true;            // larger x: smaller krn
                         if (it != T.scan.begin() && !(std::prev(it)->second >= got - MONO_SLACK)) bad = true;
-                        if (bad) cx.fail("hyst-scanning-monotone", w.str() + " non-wetting kr " + num(got) + " on the scanning curve from S=" + num(S(T.xmin)) +
+                        if (bad) cx.fail("hyst-scanning-monotone", where() + " non-wetting kr " + num(got) + " on the scanning curve from S=" + num(S(T.xmin)) +
                                          " is negative, above the value at the reversal point or not monotone with the earlier observations on this curve");
                         T.scan[x] = got;
                         rep.count("steps_on_scanning_curve");
@@ -988,8 +1010,9 @@ static void caseHyst(vh::Reporter& rep, long idx, Rng& rng, int steps) {
                             if (isPc(cc) && m.ehFlag != "KR") continue;
                             std::vector<double> tx, ty; tableOf(t, cc, PUNIT[m.unit], tx, ty);
                             double tol = isPc(cc) ? pcTol(*std::max_element(ty.begin(), ty.end())) : KR_TOL;
-                            cx.close(std::string("carlson-identical-curves:") + IMB[imbMode], w.str() + " " + CURVE[cc] + " with identical drainage and imbibition curves vs. no hysteresis",
-                                     ch.eval(route, cc, s), cd.eval(route, cc, s), tol);
+                            cx.closeLazy([&] { return std::string("carlson-identical-curves:") + IMB[imbMode]; },
+                                         [&] { return where() + " " + CURVE[cc] + " with identical drainage and imbibition curves vs. no hysteresis"; },
+                                         ch.eval(route, cc, s), cd.eval(route, cc, s), tol);
                         }
                     }
                 }
@@ -1004,8 +1027,8 @@ static void caseHyst(vh::Reporter& rep, long idx, Rng& rng, int steps) {
                 bool newExtreme = false;
                 for (int route = 0; route < 2; ++route) if (x < tr[route].xmin) { tr[route].xmin = x; tr[route].scan.clear(); newExtreme = true; }
                 // --- after the update at turning points, at the end and now and then: the whole curve
-                if (!(h.turn[k] || k + 1 == h.s.size() || rng.chance(0.03))) continue;
                 (void)newExtreme;
+                if (identical || !(h.turn[k] || k + 1 == h.s.size() || rng.chance(0.03))) continue;
                 for (int route = 0; route < 2; ++route) {
                     if (!ch.supported(route, KRN)) continue;
                     const double xm = tr[route].xmin;
@@ -1014,8 +1037,9 @@ static void caseHyst(vh::Reporter& rep, long idx, Rng& rng, int steps) {
                     w << tag << " route " << ROUTE[route] << " after step " << k << " (extreme saturation S=" << S(xm) << ", drainage kr there " << kd << ")";
                     // drainage curve below the extreme
                     for (int q = 1; q <= 8; ++q) {
-                        double x2 = xm - (xm - 0.0) * q / 8.0 * rng.unit();
-                        if (!(x2 < xm - 1e-9) || x2 < (gasSystem ? 0.0 : swl + 1e-3)) continue;
+                        const double xlo = gasSystem ? 1.0 - swl - t.Sgu : swl + 1e-3;
+                        double x2 = xm - (xm - xlo) * q / 8.0 * rng.unit();
+                        if (!(x2 < xm - 1e-9) || x2 < xlo) continue;
                         cx.close("hyst-drainage-until-reversal", w.str() + " non-wetting kr at S=" + num(S(x2)) + " beyond the extreme", ch.eval(route, KRN, S(x2)), cd.eval(route, KRN, S(x2)), KR_TOL);
                     }
                     if (!(xm + 2e-3 < xhi)) continue;
@@ -1064,13 +1088,14 @@ int main(int argc, char** argv) {
     const int grid = (int)args.geti("grid", 400);
     const int steps = (int)args.geti("steps", 200);
     const std::string only = args.get("class", "");
+    const bool imbnumAbsent = args.geti("imbnum_absent", 1) != 0;   // trial runs only: 0 leaves the IMBNUM-less decks out
     rep.run_cases([&](long idx, Rng& rng) {
         int k = (int)(idx % 10);
         std::string cls = k < 3 ? "unscaled" : k < 7 ? "eps" : "hyst";
         if (!only.empty() && only != cls) return;
         if (cls == "unscaled") caseUnscaled(rep, idx, rng, grid);
         else if (cls == "eps") caseEps(rep, idx, rng, grid);
-        else caseHyst(rep, idx, rng, steps);
+        else caseHyst(rep, idx, rng, steps, imbnumAbsent);
     });
     rep.finish();
     return 0;
